@@ -260,7 +260,7 @@ def run_check(prop_id, tier, seed, procs=None, only=None):
     merged_info = {}
     for g, _ in groups:
         for k, v in (infos.get(g) or {}).items():
-            if isinstance(v, list):
+            if isinstance(v, list) and isinstance(merged_info.get(k, []), list):
                 merged_info.setdefault(k, [])
                 for x in v:
                     if x not in merged_info[k]:
@@ -300,9 +300,10 @@ def run_check(prop_id, tier, seed, procs=None, only=None):
     ev = dict(property_id=prop_id, tier=tier, seed=int(seed), level='proof', coverage=cov,
               assumptions=list(getattr(mod, 'ASSUMPTIONS', [])), wall_s=round(time.time() - t_start, 2),
               violations=total_viol)
-    os.makedirs(os.path.join(ROOT, 'evidence'), exist_ok=True)
+    evdir = os.environ.get('NDVC_EVIDENCE_DIR') or os.path.join(ROOT, 'evidence')     # tools/run_seeds.py redirects it
+    os.makedirs(evdir, exist_ok=True)
     if not only:
-        json.dump(ev, open(os.path.join(ROOT, 'evidence', prop_id + '.json'), 'w'), indent=1, default=str)
+        json.dump(ev, open(os.path.join(evdir, prop_id + '.json'), 'w'), indent=1, default=str)
 
     print('[%s %s] groups=%d obligations=%d discharged=%d refuted(new)=%d known=%d unknown=%d errors=%d twins=%d/%d '
           'xcheck=%d/%d wall=%.1fs' % (prop_id, tier, len(groups), len(counted), len(discharged), total_viol,
@@ -313,7 +314,7 @@ def run_check(prop_id, tier, seed, procs=None, only=None):
         return 1
     if errors or twin_bad or xbad or ledger_missing:
         for o in (errors + twin_bad + xbad)[:5]:
-            print('ENGINE-PROBLEM %s: %s %s' % (o['name'], o['status'], str(o.get('reason', ''))[-1500:]))
+            print('ENGINE-PROBLEM %s: %s %s' % (o['name'], o['status'], str(o.get('reason') or o.get('note') or '')[-1500:]))
         for g in ledger_missing[:5]:
             print('ENGINE-PROBLEM ledger group missing: %s' % g)
         return 3
